@@ -917,13 +917,6 @@ func runC18(c C18Case) ev.Outcome {
 	return v.out
 }
 
-func TestProp_C18(t *testing.T) {
-	if probeSrc == "" {
-		t.Fatal("VERIF_BIN is not set: the driver builds cmd/probeplugin into $VERIF_BIN/probeplugin")
-	}
-	ev.Run(t, "C18", genC18, runC18)
-}
-
 // TestExh_C18 is a fixed sweep (shard 0 only) that guarantees every behaviour and every
 // drop-in combination is exercised whatever the seed: each behaviour once between two
 // healthy neighbours, and all 8 presence combinations of {10-a_ok.conf, 20-a_ok.conf,
@@ -985,4 +978,11 @@ func TestExh_C18(t *testing.T) {
 		}
 	}
 	r.SetExtra("sweep_cases", len(cases))
+}
+
+func TestProp_C18(t *testing.T) {
+	if probeSrc == "" {
+		t.Fatal("VERIF_BIN is not set: the driver builds cmd/probeplugin into $VERIF_BIN/probeplugin")
+	}
+	ev.Run(t, "C18", genC18, runC18)
 }
